@@ -223,6 +223,7 @@ pub struct Ctl<S> {
     pub interrupts: bool,  // with split: inject Interrupted with probability 1/4
     pub ops_shared: Rc<Cell<u64>>,   // mirrors c.ops for an observer that does not own the stream
     pub fired_shared: Rc<Cell<bool>>,
+    pub bytes_shared: Rc<Cell<u64>>, // bytes read + written
 }
 
 impl<S> Ctl<S> {
@@ -239,6 +240,7 @@ impl<S> Ctl<S> {
             interrupts: false,
             ops_shared: Rc::new(Cell::new(0)),
             fired_shared: Rc::new(Cell::new(false)),
+            bytes_shared: Rc::new(Cell::new(0)),
         }
     }
     fn rnd(&mut self) -> u64 {
@@ -301,6 +303,7 @@ impl<S: Read> Read for Ctl<S> {
         }
         let r = self.inner.read(&mut buf[..n])?;
         self.c.bytes_read += r as u64;
+        self.bytes_shared.set(self.bytes_shared.get() + r as u64);
         Ok(r)
     }
 }
@@ -332,6 +335,7 @@ impl<S: Write> Write for Ctl<S> {
         }
         let r = self.inner.write(&buf[..n])?;
         self.c.bytes_written += r as u64;
+        self.bytes_shared.set(self.bytes_shared.get() + r as u64);
         Ok(r)
     }
     fn flush(&mut self) -> io::Result<()> {
